@@ -349,6 +349,9 @@ def segmentations(total, cuts, k, rnd, nrand, every_octet=True):
         if c not in seen:
             seen.add(c)
             out.append(c)
+    import math
+    while k > 1 and math.comb(len(cuts), k) > 1500:
+        k -= 1
     for r in range(0, min(k, len(cuts)) + 1):
         for c in itertools.combinations(cuts, r):
             add(c)
